@@ -168,11 +168,8 @@ def races(ctx, binp, only=None, res=None):
             continue
         ctx.evaluations += rounds
         if bad > 0:
-            shape = ctx.corr.get("tree_shape") if isinstance(ctx.corr.get("tree_shape"), dict) else {}
-            if name in ("lookup-vs-topic-delete", "nodes-vs-topic-delete") and shape.get("readersAtomic") == "true":
-                # the facts say the reader is ONE critical section (concurrent_*_linearizable_fixed): a torn answer is then
-                # not the known finding but a new one
-                name += ":although-one-critical-section"
+            # F12, F21, F37 are committed and the ties accept only the one-critical-section shapes: a torn answer is a
+            # VIOLATION under the key of the `fixed` entry it re-opens (known_findings.d/C14.json), with the race replay
             ctx.violation("race:" + name, RACE_WHAT.get(name.split(":")[0], name) + " (%d of %d rounds)" % (bad, rounds),
                           "race %s\n# run: ./check C14 --replay corpus/C14/known/races.ops\n" % name)
     return []
@@ -197,8 +194,9 @@ def run(ctx):
     ctx.trusted.append(
         "Go memory model: a RegistrationDB method body between Lock/RLock and the deferred unlock is one atomic step w.r.t. "
         "every other such body (sync.RWMutex). WHICH handlers are one such body is not trusted: regenerated lock/call facts "
-        "(Tie.Registry register_shape, unregister_shape, admin_topic_shape: fixed shapes only; readers_shape, tombstone_shape: "
-        "tree or F37/F38) compute treeAtomic / readersAtomic / tombstoneAtomic, the theorems `…_tree` are stated over them")
+        "(Tie.Registry register_shape, unregister_shape, admin_topic_shape, readers_shape, tombstone_shape: ONLY the shapes of "
+        "the committed fixes F12 994e31e, F21 0d24920, F37 682420a, F38 415122f are accepted) decide treeAtomic = readersAtomic = "
+        "tombstoneAtomic = true, and the theorems `…_tree` are stated over these computed Bools")
     ctx.assumptions += [
         "Nsq.Props.C14 (deterministic part) carries Op.modelled / t != '*'; Nsq.Props.C14Star removes both: POST "
         "/topic/tombstone?topic=* and GET /lookup?topic=* are modelled as SETS of allowed results (one per admissible "
@@ -207,17 +205,17 @@ def run(ctx):
         "refines_run / history_answers are about histories whose handler calls do not overlap (one call = one step). "
         "Overlapping calls: the WRITERS REGISTER, UNREGISTER channel, /topic/create|delete, /channel/create are one critical "
         "section each on this tree (facts; concurrent_schedules_linearizable_tree) and so linearize; the READERS GET /lookup "
-        "and GET /nodes are several critical sections unless fixes/F37 is applied: concurrent_readers_linearizable_tree says "
-        "their answers are those of one serial order IFF readersAtomic, which the facts compute (false on the tree as it is: "
-        "concurrent_lookup_delete_linearizable_false, concurrent_nodes_delete_linearizable_false; known findings "
-        "race:lookup-vs-topic-delete, race:nodes-vs-topic-delete replayed on every run). Handlers that remain several "
-        "sections by design (UNREGISTER topic, the IOLoop exit = disconnect, /channel/delete) only remove: a reader sees "
-        "the registry after a PREFIX of their sections (atomic_reader_sees_prefix), e.g. a disconnecting node with part "
-        "of its topics",
-        "ASSUMPTION until fixes/F37+F38 are committed (tombstoneAtomic = false on this tree): the model's tombstone step "
-        "(tombstoneDB, one step) is atomic in the code. It is NOT: doTombstoneTopicProducer calls p.Tombstone() with no lock "
-        "held while FilterByActive / IsTombstoned / doDebug read the fields - a Go data race (known finding "
-        "race:tombstone-unlocked-write, replayed with a -race build on every run). Sequential histories are unaffected",
+        "and GET /nodes are one critical section each since F37 (/repo 682420a; facts: readers_atomic): "
+        "concurrent_readers_linearizable_this_tree - their answers are those of one state of the writers' serial order, for "
+        "every schedule. The `…_false` theorems (concurrent_lookup_delete_linearizable_false, "
+        "concurrent_nodes_delete_linearizable_false, concurrent_schedules_linearizable_unfixed_false) are about the shapes "
+        "BEFORE the fixes; their findings are listed `fixed` and replayed on every run (a reproduction is a VIOLATION). "
+        "Handlers that remain several sections by design (UNREGISTER topic, the IOLoop exit = disconnect, /channel/delete) "
+        "only remove: a reader sees the registry after a PREFIX of their sections (atomic_reader_sees_prefix), e.g. a "
+        "disconnecting node with part of its topics",
+        "the model's tombstone step (tombstoneDB, one step) is one critical section of the code since F38 (/repo 415122f) + F37: "
+        "a checked fact (Tie.Registry.tombstone_atomic), no longer an assumption; the -race build of the harness still runs "
+        "POST /topic/tombstone against the readers on every run (a data-race report is a VIOLATION)",
     ]
     ctx.rule = ("every history of length L over the full alphabet (2 producers x {IDENTIFY, PING, disconnect, "
                 "REGISTER/UNREGISTER x 2 topics (one #ephemeral) x {no channel, c, d#ephemeral}} + create/delete "
@@ -309,25 +307,28 @@ def run(ctx):
             broken += check_stream(ctx, "exhs_%d" % sh, os.path.join(ctx.work, "exh_%d.ops" % sh),
                                    os.path.join(ctx.work, "exh_%d.impl" % sh))
         if ctx.thorough():
-            # sequentially exhaustive depth 5 over the 13-operation alphabet (371 293 histories, all of them)
-            jobs = [(binp, "TestVerifE4Exhaustive", {"VERIF_LEN": 5, "VERIF_SHARD": s, "VERIF_NSHARD": nsh,
-                                                      "VERIF_ALPHA": "tiny"}, 2400) for s in range(nsh)]
+            # depth 5 over the 13-operation alphabet (371 293 histories): round 10 budget - HALF of them per run (8 of 16
+            # shards, rotating with the seed: two seeds of different parity cover all of them); the whole set took ~3.5 min
+            # of a 754 s thorough run on a loaded box (target <= 8 min)
+            jobs = [(binp, "TestVerifE4Exhaustive", {"VERIF_LEN": 5, "VERIF_SHARD": (2 * s + ctx.seed) % (2 * nsh),
+                                                      "VERIF_NSHARD": 2 * nsh, "VERIF_ALPHA": "tiny"}, 2400) for s in range(nsh)]
             res = e4.run_parallel(ctx, jobs, workers=nsh)
             for s, (rc, out) in enumerate(res):
+                sh = (2 * s + ctx.seed) % (2 * nsh)
                 if rc != 0:
-                    ctx.log("exhaustive(tiny,5) shard %d failed:\n%s" % (s, out[-1500:]))
-                    broken.append("exhaustive(tiny,5) harness shard %d exit %s" % (s, rc))
+                    ctx.log("exhaustive(tiny,5) shard %d failed:\n%s" % (sh, out[-1500:]))
+                    broken.append("exhaustive(tiny,5) harness shard %d exit %s" % (sh, rc))
                     continue
                 if s == 0:
                     e4.hist_lines(ctx, out, "exhaustive_tiny_len5")
-                broken += check_stream(ctx, "exh5_%d" % s, os.path.join(ctx.work, "exh_%d.ops" % s),
-                                       os.path.join(ctx.work, "exh_%d.impl" % s))
-            # full alphabet, length 4: a 1/32 strided sample of the 5.3 million histories
-            jobs = [(binp, "TestVerifE4Exhaustive", {"VERIF_LEN": 4, "VERIF_SHARD": (s * 32 + ctx.seed) % 256,
-                                                      "VERIF_NSHARD": 256, "VERIF_ALPHA": "full"}, 1500) for s in range(nsh)]
+                broken += check_stream(ctx, "exh5_%d" % sh, os.path.join(ctx.work, "exh_%d.ops" % sh),
+                                       os.path.join(ctx.work, "exh_%d.impl" % sh))
+            # full alphabet, length 4: a 1/64 strided sample of the 5.3 million histories (1/32 before round 10)
+            jobs = [(binp, "TestVerifE4Exhaustive", {"VERIF_LEN": 4, "VERIF_SHARD": (s * 64 + ctx.seed) % 512,
+                                                      "VERIF_NSHARD": 512, "VERIF_ALPHA": "full"}, 1500) for s in range(nsh)]
             res = e4.run_parallel(ctx, jobs, workers=nsh)
             for s, (rc, out) in enumerate(res):
-                sh = (s * 32 + ctx.seed) % 256
+                sh = (s * 64 + ctx.seed) % 512
                 if rc != 0:
                     ctx.log("exhaustive(full,4) shard %d failed:\n%s" % (sh, out[-1500:]))
                     broken.append("exhaustive(full,4) harness shard %d exit %s" % (sh, rc))
